@@ -17,6 +17,11 @@ pub(crate) mod sort_h {
 pub(crate) mod boxcar_h {
     include!(concat!(env!("NUCLEO_VERIF_DIR"), "/nucleo/boxcar_h.rs"));
 }
+#[cfg(kani)]
+#[allow(dead_code, unused_imports, unused_macros, unused_variables, unused_assignments, unexpected_cfgs)]
+pub(crate) mod multi_h {
+    include!(concat!(env!("NUCLEO_VERIF_DIR"), "/nucleo/multi_h.rs"));
+}
 // needs the shims' harness API (rayon::verif_run_pending, parking_lot::VERIF_TIMED_SEQ): compiled under
 // Kani and in the native replay build that is linked against the shims (--cfg nucleo_verif_shims)
 #[cfg(any(kani, nucleo_verif_shims))]
